@@ -182,7 +182,7 @@ def _kind_value(sx, kind, concrete=False):
     if kind == 'int':
         return sx.int('vi', -3, 300)
     if kind == 'float':
-        return sx.choose('vf', [1.5, 2.0, float('nan'), float('inf'), 1e300])
+        return sx.choose('vf', [1.5, 2.0, float('nan'), float('inf'), float('-inf'), 1e300, -1e300])
     if kind == 'str':
         n = sx.choose('slen', [0, 2])
         return sx.text('vs', n, alphabet='a1-') if n else ''
